@@ -87,8 +87,11 @@ def run(rep, tier):
     def mk_cases():
         d = B.data()
         d.fields['value'] = sym_iv(32, True, -1000, 1000, 'VAL')
-        i = B.imm('LDAC', sym_iv(32, True, 16, 255, 'VAL'))
-        ineg = B.imm('LDBM', sym_iv(32, True, -255, -16, 'VAL'))
+        i = B.imm('LDAC', sym_iv(32, True, 16, 127, 'VAL'))
+        i2 = B.imm('LDAC', sym_iv(32, True, 128, 255, 'VAL'))
+        ineg = B.imm('LDBC', sym_iv(32, True, -255, -16, 'VAL'))
+        ineg2 = B.imm('LDBM', sym_iv(32, True, -255, -16, 'VAL'))
+        ineg3 = B.imm('LDAC', sym_iv(32, True, -(1 << 31), -(1 << 28) - 1, 'VAL'))
         r = B.ref('BR', 'L')
         r.fields['labelValue'] = sym_iv(32, True, 16, 255, 'VAL')
         r.fields['assembled'] = const(1, False, 1)
@@ -99,7 +102,8 @@ def run(rep, tier):
         ra.fields['assembled'] = const(1, False, 1)
         if 'size' in ra.fields:
             ra.fields['size'] = const(64, False, 2)
-        return [('DATA', d, True), ('InstrImm', i, True), ('InstrImm-negative', ineg, True), ('InstrLabel-relative', r, True),
+        return [('DATA', d, True), ('InstrImm', i, True), ('InstrImm-128..255', i2, True), ('InstrImm-negative', ineg, True),
+                ('InstrImm-negative-LDBM', ineg2, True), ('InstrImm-strongly-negative', ineg3, True), ('InstrLabel-relative', r, True),
                 ('InstrLabel-absolute', ra, True), ('InstrOp', B.opr('SVC'), False), ('label', B.label('x'), False),
                 ('FUNC', B.func('f'), False), ('PROC', B.proc('p'), False)]
     for name, d, has_val in mk_cases():
@@ -110,6 +114,9 @@ def run(rep, tier):
             rep.undecided('R1', name, 'listing not uniform: %s' % e, where)
             continue
         problems = []
+        if B.I.ub:
+            problems.append('undefined behaviour while the line is formatted: %s' % B.I.ub[:2])
+            del B.I.ub[:]
         convs = re.findall(r'%[#0\- +]*\d*(?:\.\d+)?[a-zA-Z]', fmt[1])
         args = fmt[2]
         if len(args) != 3 or len(convs) != 3:
